@@ -31,6 +31,7 @@ import OpenFGAVerif.Proofs.RevExpandSem
 import OpenFGAVerif.Proofs.RevExpandConsumer
 import OpenFGAVerif.Proofs.RevExpandComplete
 import OpenFGAVerif.Proofs.RefRules
+import OpenFGAVerif.Proofs.ListObjectsOps
 import OpenFGAVerif.Gen.ListObjects
 
 namespace OpenFGAVerif.C05
@@ -414,5 +415,143 @@ example (I : Interp Node) : PruneSound emptyWorld I := by
 /-- L6 repair (weighted engine): no read is issued when the user filter is empty (typed-wildcard subject on an
 edge that names concrete users). -/
 theorem tie_weighted_empty_filter : Gen.ListObjects.weightedSkipsEmptyUserFilter = true := by decide
+
+/-! ## the streaming pipeline's Intersection worker (Model/ListObjectsOps §1) -/
+
+/-- the scan of `worker.Intersection.Execute` statement by statement: the minimum starts at bag 0, the loop
+runs over bags 1 …, a strictly smaller bag becomes the minimum after the PREVIOUS MINIMUM (`w.bags[indexMin]`)
+was appended to `inputs`, any other bag is appended itself; `output` is the minimum; the output loop deletes a
+value as soon as one input lacks it; an empty bag cancels.  Any edit of the loop breaks this lemma. -/
+theorem tie_pipeline_intersection_scan :
+    Gen.ListObjects.interScanInit = ["objMin := len(w.bags[0].Unwrap())", "indexMin := 0"] ∧
+    Gen.ListObjects.interScanHeader = "i := 1; i < len(w.bags); i++" ∧
+    Gen.ListObjects.interScanBody =
+      ["bag := w.bags[i].Unwrap()", "if len(bag) < objMin", "inputs = append(inputs, w.bags[indexMin].Unwrap())",
+       "indexMin = i", "objMin = len(bag)", "else", "inputs = append(inputs, bag)", "end"] ∧
+    Gen.ListObjects.interOutput = "output := w.bags[indexMin].Unwrap()" ∧
+    Gen.ListObjects.interFilterLoop =
+      ["range output", "range inputs", "if _, ok := m[value]; !ok", "delete(output, value)", "continue OutputLoop",
+       "end", "end", "end"] ∧
+    Gen.ListObjects.interCancelConds =
+      ["len(w.senders) == 0 => return", "w.bags[index].Len() == 0 && w.stats[index].SumErrors == 0 => cancel()",
+       "ctx.Err() != nil => return"] := by decide
+
+/-- the model's parameters read off the source: comparison `<`, the previous minimum is appended, both
+`indexMin` and `objMin` move to the new bag, otherwise the bag itself is appended -/
+theorem tie_pipeline_intersection_push :
+    LoOps.pushOfSource Gen.ListObjects.interNewMinPush = some .indexMin ∧
+    Gen.ListObjects.interCompare = "len(bag) < objMin" ∧
+    Gen.ListObjects.interNewMinUpdates = ["indexMin = i", "objMin = len(bag)"] ∧
+    Gen.ListObjects.interElsePush = "bag" := by decide
+
+/-- **pipeline_intersection_exact**: with the append expression as regenerated from the source, the worker
+broadcasts exactly the values that lie in ALL operand sets — any number of operands, any cardinalities, any
+order of the operands (`LoOps.interExec_spec`, induction over the scan). -/
+theorem pipeline_intersection_exact {α : Type} [DecidableEq α] (v : LoOps.Push)
+    (hv : LoOps.pushOfSource Gen.ListObjects.interNewMinPush = some v) (bags : List (List α)) (x : α) :
+    x ∈ LoOps.interExec v bags ↔ bags ≠ [] ∧ ∀ b ∈ bags, x ∈ b := by
+  rw [tie_pipeline_intersection_push.1] at hv
+  cases hv
+  exact LoOps.interExec_spec bags x
+
+/-- … and the bag that is filtered is a smallest one -/
+theorem pipeline_intersection_min {α : Type} (v : LoOps.Push) (b0 : List α) (rest : List (List α)) :
+    ∀ b ∈ b0 :: rest, (LoOps.scan v b0 rest).minBag.length ≤ b.length := LoOps.scan_min v b0 rest
+
+/-- appending the bag scanned just before (`w.bags[i-1]`) instead of the previous minimum is wrong: operand
+sizes 2, 3, 1 — the first operand is never consulted -/
+theorem pipeline_intersection_prev_fails :
+    ¬ (∀ (bags : List (List Nat)) (x : Nat), x ∈ LoOps.interExec .prev bags → ∀ b ∈ bags, x ∈ b) := by
+  intro h
+  exact LoOps.interExec_prev_unsound.2 (h _ _ LoOps.interExec_prev_unsound.1)
+
+example : LoOps.interExec .indexMin [["a", "b"], ["a", "b", "c"], ["c"]] = [] := by decide
+example : LoOps.interExec .indexMin [["a", "b", "d"], ["d", "a", "b", "c"], ["d", "c"]] = ["d"] := by decide
+
+/-! ## the weighted engine's residual-check errors (Model/ListObjectsOps §2) -/
+
+/-- the error filter of `loopOverEdges` as regenerated from the source -/
+def genFilter : LoOps.Filter :=
+  { returnsNil := Gen.ListObjects.weightedElideReturnsNil, disjuncts := Gen.ListObjects.weightedElideDisjuncts }
+
+/-- `loopOverEdges` after `pool.Wait()`: an ExecutionError becomes `nil` only when its cause is
+context.Canceled or context.DeadlineExceeded; every other error is returned.  Dropping or widening the guard
+breaks this lemma. -/
+theorem tie_weighted_error_filter :
+    Gen.ListObjects.weightedWaitTail =
+      ["err := pool.Wait()", "if err != nil", "var executionError *ExecutionError", "if errors.As(err, &executionError)",
+       "if errors.Is(executionError.cause, context.Canceled) || errors.Is(executionError.cause, context.DeadlineExceeded)",
+       "return nil", "end", "end", "end", "return err"] ∧
+    Gen.ListObjects.weightedElideScope = "errors.As(err, &executionError)" ∧
+    genFilter = LoOps.codeFilter := by decide
+
+/-- the sibling filters: `evaluate` (classic / weighted) and the pipeline branches of `Execute` /
+`ExecuteStreamed` elide cancellation and deadline only -/
+theorem tie_error_elision_guards :
+    Gen.ListObjects.evaluateReportGuards = ["!errors.Is(err, context.DeadlineExceeded) && !errors.Is(err, context.Canceled)"] ∧
+    Gen.ListObjects.pipelineReportGuards =
+      ["!errors.Is(err, context.Canceled) && !errors.Is(err, context.DeadlineExceeded)",
+       "errRx != nil && !errors.Is(errRx, context.Canceled) && !errors.Is(errRx, context.DeadlineExceeded)"] := by decide
+
+/-- **weighted_residual_error_reported**: the filter as the source has it.  When the residual Check of some
+candidate of an intersection / exclusion fails and no failure is a cancellation or deadline, ListObjects
+returns an error — for every completion order, every limit, every consumer schedule. -/
+theorem weighted_residual_error_reported (zeroErr : Bool) (rchk : String → LoOps.RRes) (late : String → Bool)
+    (cands : List String) (limit : Nat) (evs : List Ev)
+    (hnc : ∀ o ∈ cands, ∀ c, rchk o = .fail c → c.cancellation = false)
+    (o : String) (ho : o ∈ cands) (c : LoOps.Cause) (hc : rchk o = .fail c) :
+    LoOps.wResponse zeroErr genFilter rchk late cands limit evs = none := by
+  rw [tie_weighted_error_filter.2.2]
+  exact LoOps.weighted_residual_error_reported zeroErr rchk late cands limit evs hnc o ho c hc
+
+/-- **weighted_no_silent_truncation** (the weighted analogue of `no_silent_truncation`; `maxResults = 0`, the
+final rule of `Execute` as regenerated): a response returned without error holds every candidate whose residual
+Check allows. -/
+theorem weighted_no_silent_truncation (rchk : String → LoOps.RRes) (late : String → Bool) (cands : List String)
+    (hnd : cands.Nodup) (evs : List Ev)
+    (hnc : ∀ o ∈ cands, ∀ c, rchk o = .fail c → c.cancellation = false)
+    (hev : ∀ e ∈ evs, e ≠ .deadline ∧ e ≠ .stop)
+    (hq : (crun 0 (fun _ => .allow) evs (CSt.init ((LoOps.residual rchk late cands).1.map (fun o => (o, false))))).quiescent = true)
+    (l : List String)
+    (hl : LoOps.wResponse Gen.ListObjects.zeroLimitReportsErrors genFilter rchk late cands 0 evs = some l) :
+    ∀ o ∈ cands, rchk o = .allow → o ∈ l := by
+  rw [tie_final_error_rule.2, tie_weighted_error_filter.2.2] at hl
+  exact LoOps.weighted_no_silent_truncation rchk late cands hnd evs hnc hev hq l hl
+
+/-- **weighted_error_or_full_page**: any limit, clean consumer schedule — the call reports an error or returns
+exactly `min limit |allowed|` objects (all of them for `limit = 0`): never a short list. -/
+theorem weighted_error_or_full_page (zeroErr : Bool) (rchk : String → LoOps.RRes) (late : String → Bool)
+    (cands : List String) (limit : Nat) (evs : List Ev)
+    (hnc : ∀ o ∈ cands, ∀ c, rchk o = .fail c → c.cancellation = false)
+    (hclean : ∀ e ∈ evs, e.clean = true)
+    (hq : (crun limit (fun _ => .allow) evs (CSt.init ((LoOps.residual rchk late cands).1.map (fun o => (o, false))))).quiescent = true)
+    (l : List String) (hl : LoOps.wResponse zeroErr genFilter rchk late cands limit evs = some l) :
+    l.length = (if limit = 0 then (cands.filter (fun o => decide (rchk o = .allow))).length
+                else min limit (cands.filter (fun o => decide (rchk o = .allow))).length) := by
+  rw [tie_weighted_error_filter.2.2] at hl
+  exact LoOps.weighted_error_or_full_page zeroErr rchk late cands limit evs hnc hclean hq l hl
+
+/-- the filter without its guard (every ExecutionError elided) returns a short list as a complete answer -/
+theorem weighted_elide_all_fails :
+    ¬ (∀ (rchk : String → LoOps.RRes) (late : String → Bool) (cands : List String) (evs : List Ev) (l : List String),
+        LoOps.wResponse true { returnsNil := true, disjuncts := [] } rchk late cands 0 evs = some l →
+        ∀ o ∈ cands, rchk o = .allow → o ∈ l) := by
+  intro h
+  have := h _ _ _ _ _ LoOps.elide_all_truncates "doc:2" (by simp) (by decide)
+  simp at this
+
+/-! ## the consistency preference reaches the readers of every engine -/
+
+/-- both pipeline branches hand the request's consistency preference to the store they read through (without
+it a HIGHER_CONSISTENCY request is served from the ListObjects iterator cache), and `evaluate` forwards it to
+the reverse expansion and to the confirming Check -/
+theorem tie_consistency_forwarded :
+    Gen.ListObjects.pipelineStoreArgsUnary =
+      ["ds", "req.GetStoreId()", "pipeline.WithStoreConsistency(req.GetConsistency())", "pipeline.WithStoreValidator(validator)"] ∧
+    Gen.ListObjects.pipelineStoreArgsStreamed =
+      ["ds", "req.GetStoreId()", "pipeline.WithStoreConsistency(req.GetConsistency())", "pipeline.WithStoreValidator(validator)"] ∧
+    Gen.ListObjects.evaluateConsistency =
+      ["reverseexpand.ReverseExpandRequest.Consistency = req.GetConsistency()",
+       "CheckCommandParams.Consistency = req.GetConsistency()"] := by decide
 
 end OpenFGAVerif.C05
